@@ -53,8 +53,8 @@ def post_CORRELATION(x, y, maxlags, norm, result):
     sc = max(float(np.max(np.abs(ref))),
              float(np.linalg.norm(xa) * np.linalg.norm(ya)) / N, 1e-300)
     got = np.asarray(result)
-    if np.isrealobj(xa) and np.isrealobj(ya):
-        c.require('CORRELATION:real-in-real-out', np.isrealobj(got), {'dtype': str(got.dtype)}, feats)
+    if np.isrealobj(xa) and np.isrealobj(ya) and not np.isrealobj(got):
+        c.count('observation:CORRELATION-complex-dtype-for-real-input')      # values are judged below; dtype is not in the statement
     c.compare('CORRELATION:definition', got, ref if np.iscomplexobj(got) else ref.real, TOL,
               feats, scale=sc, detail={'N': N, 'maxlags': ml})
     if auto and norm == 'biased' and got.shape == ref.shape:
